@@ -2644,6 +2644,9 @@ def preprocess_file(
                             debug=debug,
                             include_stack=include_stack,
                         )
+                        # The included file may have redefined macros: the compiled
+                        # substitutions of the old definitions are stale
+                        def_regexes.clear()
                         log.debug("!!! Completed parsing include file\n")
 
                     else:
